@@ -10,9 +10,14 @@ package shmipc
 //   finish                       run thread 0, 1, ... to completion in that order
 
 import (
+	"bytes"
 	"fmt"
 	"math/rand"
+	"os"
 	"strings"
+	"sync/atomic"
+
+	syscall "golang.org/x/sys/unix"
 )
 
 const c01SliceCap = 16
@@ -61,6 +66,9 @@ func c01Label(site string) string {
 }
 
 func c01Gen(r *rand.Rand, tier string, idx int) []string {
+	if idx%200 == 57 {
+		return []string{fmt.Sprintf("xcreate %d", 1+r.Intn(8))}
+	}
 	if idx%10 == 9 {
 		cfg := []string{"16:6", "8:6,32:4", "16:4,64:3", "8:3,16:3,64:2", "32:2"}[r.Intn(5)]
 		ops := []string{"mgr " + cfg}
@@ -486,7 +494,90 @@ func c01Mgr(ops []string) vResult {
 	return vResult{out: out, specFail: fail, key: key, tags: []string{"manager-level"}, noModel: true}
 }
 
+var c01Seq uint64
+
+// c01SecondCreator: a second PROCESS creates a buffer manager on a share-memory path whose memory is live (the first
+// creator still holds buffers). Another process does not share this process' table of managers, which is imitated by
+// hiding the entry for the duration of the second call. The second creation must be refused and must not touch the memory:
+// otherwise both processes hand out the same buffers. ops: "xcreate <file|memfd-not-applicable> <held>"
+func c01SecondCreator(f []string) vResult {
+	res := vResult{noModel: true, out: []string{"done"}}
+	held := vAtoi(f[1])
+	if held < 1 || held > 8 {
+		res.out = []string{"bad-op"}
+		return res
+	}
+	path := fmt.Sprintf("/dev/shm/verif_c01_%d_%d_buffer", os.Getpid(), atomic.AddUint64(&c01Seq, 1))
+	os.Remove(path)
+	pairs := []*SizePercentPair{{Size: 1024, Percent: 50}, {Size: 4096, Percent: 50}}
+	bm1, err := getGlobalBufferManager(path, 1<<20, true, pairs)
+	if err != nil {
+		res.specFail, res.key = "creating the buffer manager failed: "+err.Error(), "setup"
+		return res
+	}
+	defer func() {
+		addGlobalBufferManagerRefCount(path, -1)
+		os.Remove(path)
+	}()
+	type own struct {
+		b   *bufferSlice
+		sig []byte
+	}
+	var mine []own
+	for i := 0; i < held; i++ {
+		b, err := bm1.allocShmBuffer(1000)
+		if err != nil {
+			break
+		}
+		sig := bytes.Repeat([]byte{byte(0xa0 + i)}, 1000)
+		b.append(sig...)
+		b.update()
+		mine = append(mine, own{b, sig})
+	}
+	// the second process
+	bufferManagers.Lock()
+	saved := bufferManagers.bms[path]
+	delete(bufferManagers.bms, path)
+	bufferManagers.Unlock()
+	bm2, err2 := getGlobalBufferManager(path, 1<<20, true, pairs)
+	bufferManagers.Lock()
+	bufferManagers.bms[path] = saved
+	bufferManagers.Unlock()
+	if err2 == nil {
+		// S (C01): nobody but the holder alters a held buffer; no second owner
+		for i, o := range mine {
+			if !bytes.Equal(o.b.data[o.b.start:o.b.start+1000], o.sig) || o.b.size() != 1000 && false {
+				res.specFail = fmt.Sprintf("a second creator on the same path re-initialised live memory: held buffer %d was altered", i)
+				res.key = "second-creator-reinitialises-live-memory"
+			}
+		}
+		for k := 0; k < held && res.specFail == ""; k++ {
+			nb, err := bm2.allocShmBuffer(1000)
+			if err != nil {
+				break
+			}
+			for i, o := range mine {
+				if nb.offsetInShm == o.b.offsetInShm {
+					res.specFail = fmt.Sprintf("a second creator on the same path was accepted and hands out the buffer at offset %d, which the first creator's holder %d still owns", nb.offsetInShm, i)
+					res.key = "second-creator-reinitialises-live-memory"
+				}
+			}
+		}
+		if res.specFail == "" {
+			res.specFail, res.key = "a second creation on a path whose memory is live was accepted (exclusive creation expected)", "second-creator-reinitialises-live-memory"
+		}
+		syscall.Munmap(bm2.mem)
+	}
+	res.tags = []string{"second-creator-refused"}
+	return res
+}
+
 func c01Exec(ops []string) vResult {
+	if len(ops) == 1 && strings.HasPrefix(ops[0], "xcreate ") {
+		if f := vFields(ops[0]); len(f) == 2 {
+			return c01SecondCreator(f)
+		}
+	}
 	if len(ops) > 0 && strings.HasPrefix(ops[0], "mgr ") {
 		return c01Mgr(ops)
 	}
